@@ -225,6 +225,13 @@ def components(ops):
     return [(sorted(keysof[r]), comps[r]) for r in sorted(comps)]
 
 
+def dump_index(dump):
+    idx = {}
+    for l in dump:
+        idx.setdefault(l.split(" ")[2], []).append(l)
+    return idx
+
+
 def lin_lines(name, keys, ops, dump, atomic, pending_after=None, final=True):
     """Input block for `concrun lin`.  atomic: set of command names whose skeleton is one section."""
     out = ["COMP " + name, "KEYS " + " ".join(hx(k) for k in keys)]
@@ -249,9 +256,9 @@ def lin_lines(name, keys, ops, dump, atomic, pending_after=None, final=True):
         for st in stages:
             out.append("G " + " ".join(hx(a) for a in st))
     if final and pending_after is None:
-        kh = set(hx(k) for k in keys)
-        for l in dump:
-            if l.split(" ")[2] in kh:
+        idx = dump if isinstance(dump, dict) else dump_index(dump)
+        for k in keys:
+            for l in idx.get(hx(k), []):
                 out.append("FINAL " + l)
     else:
         out.append("NOFINAL")
@@ -287,6 +294,7 @@ def check_linearizable(phase, ops, q, tr, d, budget, stats):
     rep = tr["report"]
     blocks = []
     meta = {}
+    didx = dump_index(q["dump"])
     for i, (keys, cops) in enumerate(components(ops)):
         cname = "%s.c%d" % (phase, i)
         unknown = sorted(set(o.name for o in cops if not modelled.get(o.name, False)))
@@ -307,7 +315,7 @@ def check_linearizable(phase, ops, q, tr, d, budget, stats):
                 stats["unmodelled"].add(n)
             continue
         meta[cname] = (keys, cops)
-        blocks += lin_lines(cname, keys, cops, q["dump"], None)
+        blocks += lin_lines(cname, keys, cops, didx, None)
     if not blocks:
         return viol
     res, log = run_concrun(blocks, d, budget)
